@@ -1103,10 +1103,9 @@ func (self *Node) deleteChild(path Path) Node {
 		if id == nil {
 			return errNode(meta.ErrInvalidParam, "", nil)
 		}
-		if err := p.ModifyI32(p.Read-4, int32(size-1)); err != nil {
-			return errNode(meta.ErrWrite, "", err)
-		}
+		sizePos := p.Read - 4
 		tt = et
+		found := false
 		for i := 0; i < size; i++ {
 			s = p.Read
 			if err := p.Skip(kt, UseNativeSkipForGet); err != nil {
@@ -1118,8 +1117,15 @@ func (self *Node) deleteChild(path Path) Node {
 			}
 			e = p.Read
 			if bytes.Equal(key, id) {
+				found = true
 				break
 			}
+		}
+		if !found {
+			return errNotFound
+		}
+		if err := p.ModifyI32(sizePos, int32(size-1)); err != nil {
+			return errNode(meta.ErrWrite, "", err)
 		}
 	}
 
